@@ -129,6 +129,29 @@ fn check_lookups(v: &Value, rv: &RefValue, text: &str, rep: &mut Report) {
             let want: Vec<&RefValue> = es.iter().filter(|(k2, _)| k2 == k).map(|(_, x)| x).collect();
             let got: Vec<RefValue> = o.get(k.as_str()).map(from_real).collect();
             if got.iter().collect::<Vec<_>>() != want { rep.violation("key lookup == linear scan in source order", "lookup", format!("{:?} key={:?}", text, k), format!("got={:?}", got)); }
+            // every other lookup of the key against the same linear scan
+            let pos: Vec<usize> = es.iter().enumerate().filter(|(_, (k2, _))| k2 == k).map(|(i, _)| i).collect();
+            let mut bad = |what: &str, detail: String| rep.violation("key lookup == linear scan in source order", "lookup-api", format!("{:?} key={:?} via {}", text, k, what), detail);
+            let ents = o.entries();
+            if o.indexes_of(k.as_str()).collect::<Vec<_>>() != pos { bad("indexes_of", format!("{:?} expected {:?}", o.indexes_of(k.as_str()).collect::<Vec<_>>(), pos)); }
+            if o.get_with_index(k.as_str()).map(|(i, v)| (i, v as *const Value)).collect::<Vec<_>>() != pos.iter().map(|&i| (i, &ents[i].value as *const Value)).collect::<Vec<_>>() { bad("get_with_index", format!("expected positions {:?}", pos)); }
+            if o.get_entries(k.as_str()).map(|e| e as *const _).collect::<Vec<_>>() != pos.iter().map(|&i| &ents[i] as *const _).collect::<Vec<_>>() { bad("get_entries", format!("expected positions {:?}", pos)); }
+            if o.get_entries_with_index(k.as_str()).map(|(i, e)| (i, e as *const _)).collect::<Vec<_>>() != pos.iter().map(|&i| (i, &ents[i] as *const _)).collect::<Vec<_>>() { bad("get_entries_with_index", format!("expected positions {:?}", pos)); }
+            if o.index_of(k.as_str()) != pos.first().copied() { bad("index_of", format!("{:?} expected {:?}", o.index_of(k.as_str()), pos.first())); }
+            if o.redundant_index_of(k.as_str()) != pos.get(1).copied() { bad("redundant_index_of", format!("{:?} expected {:?}", o.redundant_index_of(k.as_str()), pos.get(1))); }
+            if o.contains_key(k.as_str()) != !pos.is_empty() { bad("contains_key", format!("{}", o.contains_key(k.as_str()))); }
+            match (o.get_unique(k.as_str()), pos.len()) {
+                (Ok(None), 0) => {}
+                (Ok(Some(v)), 1) if std::ptr::eq(v, &ents[pos[0]].value) => {}
+                (Err(d), n) if n >= 2 && std::ptr::eq(d.0, &ents[pos[0]]) && std::ptr::eq(d.1, &ents[pos[1]]) => {}
+                _ => bad("get_unique", format!("positions {:?}", pos)),
+            }
+            match (o.get_unique_entry(k.as_str()), pos.len()) {
+                (Ok(None), 0) => {}
+                (Ok(Some(e)), 1) if std::ptr::eq(e, &ents[pos[0]]) => {}
+                (Err(d), n) if n >= 2 && std::ptr::eq(d.0, &ents[pos[0]]) && std::ptr::eq(d.1, &ents[pos[1]]) => {}
+                _ => bad("get_unique_entry", format!("positions {:?}", pos)),
+            }
         }
         for (e, (_, rx)) in o.entries().iter().zip(es) { check_lookups(&e.value, rx, text, rep); }
     }
